@@ -316,8 +316,9 @@ class ShareableThreadLock:
                 self._acquired_by[thread_id] -= 1
                 if not self._acquired_by[thread_id]:
                     del self._acquired_by[thread_id]  # NOTE: GC
-                    if not self._acquired_by:
-                        self._condition.notify_all()
+                    # NOTE: A thread upgrading to an exclusive lock waits
+                    # until it is the only holder left
+                    self._condition.notify_all()
             finally:
                 self._condition.release()
 
